@@ -35,7 +35,12 @@ static const double MIN_TIMEOUT_IN_S = 0.001;
 
 uint64_t convert_seconds_to_nsec(double seconds)
 {
-	return (uint64_t)(seconds * 1000000000.0);
+	double nsec = seconds * 1000000000.0;
+	if (nsec >= 18446744073709551615.0) {
+		/* Converting a value that does not fit is undefined behaviour; saturate instead. */
+		return UINT64_MAX;
+	}
+	return (uint64_t)nsec;
 }
 
 uint64_t get_timeout_in_nsec(const struct peer *p, const cJSON *request, const cJSON *timeout, cJSON **response, uint64_t default_timeout)
